@@ -860,10 +860,145 @@ def flood_unit():
                 ctx_params=ctx)
 
 
+# ----------------------------------------------------------------------------------------------------------
+# geostructures/_geometry.py :: coordinate_vector_cross_product, convex_hull — Andrew's monotone chain   (C10)
+#
+# a coordinate is the exact pair `GV.Pt` (floats as exact rationals, §3).  Translated from the text: the cross product,
+# the `len(...) <= 1` shortcut, both `for` loops (structural recursions over the sorted / reversed list whose state is the
+# stack), the `while len(st) >= 2 and cross(st[-2], st[-1], coord) <= 0: st.pop()` inside them (a fuelled recursion that
+# returns the stack; fuel = the stack's length, running out while the test holds is an error), `append`, `xs[:-1] + ys`.
+# A Python list is the Lean list in the same order (the model keeps its stacks top-first: the proofs bridge the two).
+# `xs[-k]` and `pop()` raise IndexError on a short list, so the instance is in `Except`; the equality with the model
+# says no exception is ever raised.
+# *Not* translated (declared intrinsic): `sorted(set(xs), key=lambda x: (x.longitude, x.latitude))` is read as the model's
+# `GV.Hull.sortedSet` (duplicate removal + stable merge sort on the key; `sorted_set_canonical` in Props/C10 shows the
+# result does not depend on the set's iteration order); any other `sorted(...)` call is rejected.
+
+def hull_unit():
+    import ast as _ast
+    src = py2lean.Source(_repo('_geometry.py'))
+    insts = [
+        Inst('coordinate_vector_cross_product', 'cross', [('o', 'Pt'), ('a', 'Pt'), ('b', 'Pt')], 'R'),
+        Inst('convex_hull', 'convexHull', [('coordinates', 'List Pt')], 'Except List Pt'),
+    ]
+
+    def sorted_hook(tr, e):
+        def is_key(lam):
+            if not (isinstance(lam, _ast.Lambda) and len(lam.args.args) == 1 and not lam.args.defaults and not lam.args.vararg
+                    and not lam.args.kwarg and not lam.args.kwonlyargs and isinstance(lam.body, _ast.Tuple) and len(lam.body.elts) == 2):
+                return False
+            x = lam.args.args[0].arg
+            return [(_ast.unparse(c.value), c.attr) if isinstance(c, _ast.Attribute) else None for c in lam.body.elts] == \
+                [(x, 'longitude'), (x, 'latitude')]
+        ok = (len(e.args) == 1 and len(e.keywords) == 1 and e.keywords[0].arg == 'key' and is_key(e.keywords[0].value)
+              and isinstance(e.args[0], _ast.Call) and isinstance(e.args[0].func, _ast.Name) and e.args[0].func.id == 'set'
+              and len(e.args[0].args) == 1 and not e.args[0].keywords)
+        xs = tr.expr(e.args[0].args[0]) if ok else None
+        if not ok or xs.typ != 'List Pt':
+            raise Unsupported(f'`{_ast.unparse(e)[:90]}`: only `sorted(set(<coordinates>), key=lambda x: (x.longitude, x.latitude))` '
+                              'is read as the model\'s sortedSet')
+        return Val(f'(GV.Hull.sortedSet {xs.text})', 'List Pt')
+
+    def loop_fuel(qual, state):
+        # each iteration of the inner loop pops one entry: the stack's length bounds the number of iterations
+        return ' + '.join('({' + n + '}).length' for n in state)
+
+    return Unit('SrcHull', src, 'GV.Src.Hull', ['GeoVerif.Model.Hull', 'GeoVerif.Model.PyList'], insts, {},
+                attr_types={('Pt', 'longitude'): ('{}.1', 'R'), ('Pt', 'latitude'): ('{}.2', 'R')},
+                hooks={'isinstance': lambda typ: None, 'sorted': sorted_hook, 'loop_fuel': loop_fuel, 'float_as_int': True,
+                       'keywords': lambda tr, e: getattr(e.func, 'id', None) == 'sorted',
+                       'ann_type': lambda ann: {'List[Coordinate]': 'List Pt', 'list[Coordinate]': 'List Pt'}.get(ann),
+                       'local_type': lambda qual, name: 'List Pt' if qual == 'convex_hull' else None})
+
+
+# geostructures/structures.py :: GeoPolygon.__init__ — what the hull wrappers' `GeoPolygon(ring)` does to the ring   (C10)
+#
+# the instance with every optional parameter at its default (`holes=None`, `_is_hole=False`); the result is the stored
+# `self.outline`.  `outline[0]` / `outline[-1]` raise IndexError on an empty ring.  `is_counter_clockwise` is the model's
+# `isCCW` and `super().__init__` (PolygonBase: stores holes/dt/properties, cannot raise without holes) are pinned; the
+# two logging calls have no effect on the value.
+
+HULL_PINS = {
+    '_geometry.py::is_counter_clockwise': '029b036eea7a5394',
+    'structures.py::PolygonBase.__init__': 'e3b6c67c55a7b8b4',
+}
+
+
+def hullpoly_unit():
+    import ast as _ast
+    src = py2lean.Source(_repo('structures.py'))
+    insts = [Inst('GeoPolygon.__init__', 'init', [('self', 'None'), ('outline', 'List Pt')], 'Except List Pt',
+                  doc='holes, dt, properties, _is_hole at their defaults')]
+
+    def init_hook(tr, fields):
+        if set(fields) != {'outline'} or fields['outline'].typ != 'List Pt':
+            raise Unsupported(f'GeoPolygon.__init__ stores fields {sorted(fields)}')
+        return fields['outline'].text
+
+    def expr_stmt(tr, call):
+        if tr.is_super_init(_ast.Call(func=call.func, args=[], keywords=[])) and isinstance(call, _ast.Call) and not call.args \
+                and all(k.arg in ('holes', 'dt', 'properties') and isinstance(k.value, _ast.Name) and k.value.id == k.arg
+                        for k in call.keywords):
+            return True               # PolygonBase.__init__(holes=None, dt=None, properties=None): pinned
+        return isinstance(call, _ast.Call) and _ast.unparse(call.func) in ('LOGGER.warning', 'warn_once')
+
+    def ccw(tr, args):
+        if [a.typ for a in args] != ['List Pt']:
+            raise Unsupported('is_counter_clockwise(' + ', '.join(a.typ for a in args) + ')')
+        return Val(f'(GV.isCCW {args[0].text})', 'Bool')
+
+    return Unit('SrcHullPoly', src, 'GV.Src.HullPoly', ['GeoVerif.Model.Plane', 'GeoVerif.Model.PyPrelude', 'GeoVerif.Model.PyList'],
+                insts, {}, pins=dict(HULL_PINS), intrinsics={'is_counter_clockwise': ccw},
+                hooks={'isinstance': lambda typ: None, 'init': init_hook, 'expr_stmt': expr_stmt,
+                       'keywords': lambda tr, e: tr.is_super_init(_ast.Call(func=e.func, args=[], keywords=[]))})
+
+
+# geostructures/multistructures.py :: MultiGeoPoint / MultiGeoLineString / MultiGeoPolygon .convex_hull   (C10)
+#
+# a multi-shape is the list of its members (`μ`); what a member contributes is abstract: `cen m` = `m.centroid`,
+# `verts m` = `m.vertices`, `bc m` = `m.bounding_coords(**kwargs)`.  `convex_hull(...)` is SrcHull's translated function,
+# `GeoPolygon(...)` SrcHullPoly's translated constructor.
+
+def hullmulti_unit():
+    src = py2lean.Source(_repo('multistructures.py'))
+    insts = [
+        Inst('MultiGeoPoint.convex_hull', 'multiPointHull', [('self', 'HMulti')], 'Except List Pt'),
+        Inst('MultiGeoLineString.convex_hull', 'multiLineHull', [('self', 'HMulti')], 'Except List Pt'),
+        Inst('MultiGeoPolygon.convex_hull', 'multiPolyHull', [('self', 'HMulti')], 'Except List Pt'),
+    ]
+    py2lean.LEAN_TYPE.setdefault('HMulti', 'List μ')
+
+    def hull(tr, args):
+        if [a.typ for a in args] != ['List Pt']:
+            raise Unsupported('convex_hull(' + ', '.join(a.typ for a in args) + ')')
+        v = Val(f'(GV.Src.Hull.convexHull {args[0].text})', 'List Pt')
+        v.raises = True
+        return v
+
+    def poly(tr, args):
+        if [a.typ for a in args] != ['List Pt']:
+            raise Unsupported('GeoPolygon(' + ', '.join(a.typ for a in args) + ')')
+        v = Val(f'(GV.Src.HullPoly.init {args[0].text})', 'List Pt')
+        v.raises = True
+        return v
+
+    return Unit('SrcHullMulti', src, 'GV.Src.HullMulti', ['GeoVerif.Gen.SrcHull', 'GeoVerif.Gen.SrcHullPoly'], insts, {},
+                header='variable {μ : Type}',
+                attr_types={('HMulti', 'geoshapes'): ('{}', 'List μ'), ('μ', 'centroid'): ('(cen {})', 'Pt'),
+                            ('μ', 'vertices'): ('(verts {})', 'List Pt')},
+                abstract={('μ', 'bounding_coords', ()): ('bc {0}', 'List Pt')},
+                intrinsics={'convex_hull': hull, 'GeoPolygon': poly},
+                hooks={'isinstance': lambda typ: None},
+                ctx_params=[('cen', 'μ → GV.Pt'), ('verts', 'μ → List GV.Pt'), ('bc', 'μ → List GV.Pt')])
+
+
 UNITS = {'SrcTime': time_unit, 'SrcBase': base_unit, 'SrcMulti': multi_unit, 'SrcColl': coll_unit, 'SrcPip': pip_unit,
          'SrcMember': member_unit, 'SrcTrack': track_unit, 'SrcRelate': relate_unit, 'SrcCoord': coord_unit,
-         'SrcCurved': curved_unit, 'SrcCalc': calc_unit,
-         'SrcFlood': flood_unit}
+         'SrcCurved': curved_unit, 'SrcCalc': calc_unit}
+UNITS['SrcFlood'] = flood_unit
+UNITS['SrcHull'] = hull_unit
+UNITS['SrcHullPoly'] = hullpoly_unit
+UNITS['SrcHullMulti'] = hullmulti_unit
 
 
 def render(name):
